@@ -44,6 +44,7 @@ def check(ctx):
     ctx.guard(r045_counts, ctx)
     ctx.guard(sweep_structure, ctx, "R04.5")
     ctx.guard(r048_wiring, ctx)
+    ctx.guard(r049_no_inplace, ctx)
     ctx.guard(_shared_c04, ctx)
 
 def _analysis(ctx):
@@ -272,6 +273,12 @@ def r044_thresholder(ctx, rule="R04.4"):
     ok = val_.op == "sub" and val_.args[1] is mask and A.eq(val_.args[0], want)
     ctx.ob(rule, fq, e.node, ok, "p = p_ignore*c + (1 - p_ignore)*(p0*op0(s) + p1*op1(s)) when p_ignore is present, else "
            "p0*op0(s) + p1*op1(s)" if ok else f"group probabilities are {A.show(val_, 260)}", construct="thresholder probability")
+    it_ = lev.data["iter"]
+    okm = mask.op == "cmp" and mask.args[0] == "==" and {mask.args[1], mask.args[2]} == {sf, a} and it_.op == "call" and \
+        it_.args[0].op == "attr" and it_.args[0].args[1] == "items" and A.eq(it_.args[0].args[0], A.entry(r, "self.interpolation_dict"))
+    ctx.ob(rule, fq, e.node, okm, "a row gets the rule of the interpolation_dict key that equals its validated sensitive-feature "
+           "value (no conversion on either side of the comparison)" if okm else f"rows are selected by {A.show(mask, 120)}, not by "
+           "equality of the validated sensitive feature with the interpolation_dict key", construct="thresholder row selection")
     init = root_of(e.data["obj"])
     ok = A.eq(init, A.spec("0.0 * s", b)) or A.eq(init, A.spec("np.zeros(len(s))", {**b, **NP, "len": glob("builtins.len")}))
     ok = ok and not zero_over_runtime(init)
@@ -510,10 +517,50 @@ def sweep_structure(ctx, rule):
     d = rs.params["data"]
     srt = A2.entry(rs, "data.sort_values(by=SCORE_KEY, ascending=False)")
     ret = rs.ret
-    oks = ret is not None and ret.op == "tuple" and A2.eq(ret.args[0][0], A2.spec("list(S[K])", {"S": srt, "K": A2.entry(rs, "SCORE_KEY"), "list": glob("builtins.list")})) \
-        and A2.eq(ret.args[0][1], A2.spec("list(S[K])", {"S": srt, "K": A2.entry(rs, "LABEL_KEY"), "list": glob("builtins.list")}))
+    def col(t, key):
+        b = {"S": srt, "K": A2.entry(rs, key), "list": glob("builtins.list")}
+        return A2.eq(t, A2.spec("list(S[K])", b)) or A2.eq(t, A2.spec("S[K].tolist()", b))
+    oks = ret is not None and ret.op == "tuple" and col(ret.args[0][0], "SCORE_KEY") and col(ret.args[0][1], "LABEL_KEY")
     ctx.ob(rule, rs.func, None, oks, "scores and labels are read from the same frame sorted by descending score",
            construct="sweep ordering")
+    # list(ndarray) keeps numpy scalars (fixed-width integer labels then overflow in the running counts); list(Series) and
+    # .tolist() give Python numbers
+    if ret is not None and ret.op == "tuple":
+        for i, what in ((0, "scores"), (1, "labels")):
+            t = ret.args[0][i]
+            raw = t.op == "call" and t.args[0] is glob("builtins.list") and t.args[1] and contains(
+                t.args[1][0], lambda s: (s.op == "attr" and s.args[1] in ("values", "array")) or
+                (s.op == "call" and s.args[0].op == "attr" and s.args[0].args[1] in ("to_numpy", "__array__")) or
+                (s.op == "call" and s.args[0].op == "global" and s.args[0].args[0] in ("numpy.asarray", "numpy.array", "numpy.asanyarray")))
+            ctx.ob(rule, rs.func, None, not raw, f"the {what} list holds Python numbers (list(Series) / .tolist()), not numpy scalars "
+                   "of the column's fixed-width dtype", construct=f"sweep {what} element type")
+
+
+def r049_no_inplace(ctx, rule="R04.9"):
+    ctx.rule(rule, "the curve utilities and the optimisation routines never update in place a value that is also reachable under "
+                   "another name (an argument, or a local bound to the same object): `n = positives; n += negatives` changes "
+                   "`positives` too when the counts are arrays, so a metric computed from them is no longer its definition")
+    from .common import inplace_updates_of_foreign_values
+    A = Analysis(ctx, max_depth=0)
+    fqs = [M_TC + ":" + f for f in ("_extend_confusion_matrix", "_tradeoff_curve", "_filter_points_to_get_convex_hull", "_interpolate_curve",
+                                    "_get_interpolation_indices", "_calculate_tradeoff_points", "_get_scores_labels_and_counts",
+                                    "_get_counts")]
+    fqs += [TO + "._threshold_optimization_for_simple_constraints", TO + "._threshold_optimization_for_equalized_odds",
+            M_TO + ":_reformat_and_group_data"]   # _reformat_data_into_dict fills its data_dict argument by contract
+    n = 0
+    for fq in fqs:
+        if fq not in ctx.prog.functions:
+            continue
+        r = A.run(fq, cls_ctx=TO if fq.startswith(TO + ".") else None)
+        n += 1
+        params = set(r.params.values()) - {r.self_term}
+        hits = inplace_updates_of_foreign_values(r, lambda x, params=params: x in params, ctx.prog)
+        ok = not hits
+        name = fq.split(":")[1]
+        ctx.ob(rule, fq, hits[0][0].node if hits else None, ok, f"{name} updates in place only values it created and holds under one "
+               "name" if ok else f"{name} applies an in-place {hits[0][1]}: the value is an argument or is bound to a second name that "
+               "is read afterwards", construct=f"{name} no shared in-place update")
+    ctx.floor(rule, "curve utilities and optimisation routines", n, 10)
 
 
 def _shared_c04(ctx):
@@ -522,7 +569,7 @@ def _shared_c04(ctx):
     from .c12 import label_sinks
     from .c19 import lifecycle_of
     ctx.rule("R04.6", "fit does not depend on state left by an earlier fit and prediction writes no state (shared with C19 R19.3 / R19.4)")
-    lifecycle_of(ctx, [TO, IT], {"R19.3": "R04.6", "R19.4": "R04.6"})
+    lifecycle_of(ctx, [TO, IT], {"R19.3": "R04.6", "R19.4": "R04.6", "R19.6": "R04.6"})
     ctx.rule("R04.7", "no caller-labelled pandas value reaches a label-aligning operation on the paths of this property (shared with C12 R12.1)")
     label_sinks(ctx, "R04.7", [(TO + ".fit", TO), (IT + "._pmf_predict", IT)])
 
